@@ -573,6 +573,13 @@ func (val Node) AsRaw(ctx *Context) string {
 		raw, _ := SkipOneFast(ctx.Parser.Json, val.Position()-1)
 		return raw
 	default:
+		if val.IsNumber() {
+			// the fast skipper runs past a top-level number up to the next delimiter
+			start := val.Position()
+			if end, ok := SkipNumberFast(ctx.Parser.Json, start); ok {
+				return ctx.Parser.Json[start:end]
+			}
+		}
 		raw, err := SkipOneFast(ctx.Parser.Json, val.Position())
 		if err != nil {
 			break
